@@ -6,7 +6,7 @@
 
 package internalsrv
 
-//@ unit internal_handler props=C03,C12 filter=`internalsrv\.Internal\)\.ServeHTTP$`
+//@ unit internal_handler frames=on props=C03,C12 filter=`internalsrv\.Internal\)\.ServeHTTP$`
 //@ ghost nextCalls int
 //@ extern invoke:(github.com/tmpim/casket/caskethttp/httpserver.Handler).ServeHTTP
 //@   modifies ghost:nextCalls, URL.Path
@@ -22,7 +22,7 @@ package internalsrv
 
 //@ func (Internal).ServeHTTP
 //@   requires r != nil && r.URL != nil && i.Next != nil
-//@   modifies URL.Path
+//@   modifies URL.Path, ghost:nextCalls
 //@   ensures [protected_not_served] exists(k, 0, len(i.Paths), protected(k)) ==> (result0 == 404 && result1 == nil && nextCalls == old(nextCalls))
 //@   ensures [bounded_redirects] nextCalls <= old(nextCalls) + 11
 //@   loop 1 invariant 0 <= #i && #i <= len(i.Paths) && nextCalls == old(nextCalls) && r.URL == old(r.URL) && r.URL.Path == old(r.URL.Path)
